@@ -265,4 +265,25 @@ theorem roundedGuessArr_okAt (fl : Rat → Rat) (mono : ∀ x y, x ≤ y → fl 
 
 end Rounding
 
+section TwinsAt
+variable {α : Type} [LT α] [LE α] [DecidableLT α] [DecidableLE α] [DecidableEq α]
+
+/-- the executable predicate is exactly `GuessesOKAt` -/
+theorem guessesOKAtB_iff (axes : List (List α)) (xs : List α) (g : Nat → Nat → Nat → Int) :
+    guessesOKAtB axes xs g = true ↔ GuessesOKAt axes xs g := by
+  unfold guessesOKAtB GuessesOKAt
+  simp only [List.all_eq_true, List.mem_range]
+  constructor
+  · intro h k h₁ h₂
+    have := h k (by omega)
+    simp only [List.getElem?_eq_getElem h₁, List.getElem?_eq_getElem h₂] at this
+    exact (guessOKAtB_iff _ _ _).1 this
+  · intro h k hk
+    have h₁ : k < axes.length := by omega
+    have h₂ : k < xs.length := by omega
+    simp only [List.getElem?_eq_getElem h₁, List.getElem?_eq_getElem h₂]
+    exact (guessOKAtB_iff _ _ _).2 (h k h₁ h₂)
+
+end TwinsAt
+
 end Lena.C06
